@@ -433,6 +433,12 @@ func (x *Exec) pathGetTV(st *State, cur TV, path []PathEl) TV {
 		if el.IsIdx {
 			es := x.w.ElemSort(cur.S)
 			cur = TV{es, sIdx(cur.S, cur.E, el.Idx)}
+			if x.w.DTByName(es) != nil {
+				// keep the element term alive as an E-matching trigger: a copy into a local
+				// that is never read again would otherwise be simplified away by the solver
+				x.w.Decl(fmt.Sprintf("(declare-fun g_seen_%s (%s) Bool)", es, es))
+				st.assume(app("g_seen_"+es, cur.E))
+			}
 		} else {
 			d := x.w.DTByName(cur.S)
 			if d == nil {
